@@ -1437,6 +1437,15 @@ class Script(object):
         return data
 
 
+def _call_message(script, rng):
+    """the message handed to call(): half of the time a dict an earlier call has already been made with (it still
+    carries that call's id, the one the stale replies of this script bear): every call has an id of its own"""
+    msg = {"command": "list", "properties": {}}
+    if rng.random() < 0.5:
+        msg["id"] = script.stale_id
+    return msg
+
+
 def sync_outcome(client_mod, frames, rng, timeout_s):
     """Drive the real CircusClient.call over one delivery sequence."""
     c = client_mod.CircusClient.__new__(client_mod.CircusClient)
@@ -1448,7 +1457,7 @@ def sync_outcome(client_mod, frames, rng, timeout_s):
     c._id = b"c06"
     c.endpoint = "sim://ctrl"
     try:
-        res = c.call({"command": "list", "properties": {}})
+        res = c.call(_call_message(script, rng))
     except client_mod.CallError as e:
         return (["timeout"] if str(e) == "Timed out." else ["callerror"]), script, str(e)
     except RuntimeError as e:
@@ -1494,7 +1503,7 @@ def async_outcome(client_mod, frames, rng, timeout_s, vl):
     c.timeout = timeout_s * 1000
     c._id = b"c06"
     c.endpoint = "sim://ctrl"
-    fut = c.call({"command": "list", "properties": {}})
+    fut = c.call(_call_message(script, rng))
 
     def spin():
         n = 0
